@@ -397,6 +397,12 @@ def growth(ctx, b, tb, bi, base, new, site):
 def shrink(ctx, b, tb, bi, sv, site):
     """C04.5: remove_assertion-style site."""
     F = ctx.F
+    # C04.1 for this site first, on its own: the node is rebuilt only on the not-empty edge of the remaining vector
+    e0 = find_terms(b, tb, lambda t: t[0] == 'call' and call_name(t) == 'is_empty' and strip_sites(t[2][0]) == sv)
+    ok0, info0 = guard_dominates(b, tb, [bi], lambda t: t[0] == 'call' and call_name(t) == 'is_empty' and strip_sites(t[2][0]) == sv, False) if e0 else (False, 'no emptiness test of the remaining vector')
+    if not ok0:
+        ctx.fail('C04.1', site, 'node rebuilt over the remaining assertions without a not-empty guard (removing the last assertion must collapse to the subject): ' + info0, key='C04.5|noempty')
+        return
     idx = sv[3][1]
     pos = idx[1] if idx[0] == 'vfield' and idx[2] == 'Some' else None
     fi = first_index(F, b, tb, pos) if pos is not None else None
